@@ -34,8 +34,8 @@ func init() {
 			}
 			return 192
 		},
-		Run:  runC06,
-		Need: []string{"checktx", "admitted_executed"},
+		Run:         runC06,
+		Need:        []string{"checktx", "admitted_executed"},
 		Assumptions: []string{"nesting through x/authz MsgExec (depth 1-3) and x/group proposals executed with Exec_TRY", "single-signer transactions"},
 	})
 }
